@@ -192,6 +192,10 @@ func (r *Rec) Sample(class string, v any) {
 		return
 	}
 	r.sampleSeen[class]++
+	// NaN / Inf are not representable in JSON: fall back to the textual form
+	if _, err := json.Marshal(v); err != nil {
+		v = fmt.Sprintf("%+v", v)
+	}
 	r.samples = append(r.samples, map[string]any{"class": class, "case": v})
 }
 
@@ -302,7 +306,11 @@ func (r *Rec) Flush() {
 		p.Hashes = append(p.Hashes, strconv.FormatUint(h, 36))
 	}
 	sort.Strings(p.Hashes)
-	b, _ := json.Marshal(p)
+	b, err := json.Marshal(p)
+	if err != nil {
+		p.Samples = []any{fmt.Sprintf("samples dropped: %v", err)}
+		b, _ = json.Marshal(p)
+	}
 	os.WriteFile(out, b, 0o644)
 }
 
